@@ -550,8 +550,8 @@ def _replay_and_write(prop, v, baseline, outs=None):
             r = outs["runs"][0]
             native_results = r["results"]
             values = r.get("values")
-            if r["applicable"]:
-                reproduced = any(not ok for (_n, ok, _d) in r["results"])
+            # obligations evaluated before a later precondition turned out false still count
+            reproduced = any(not ok for (_n, ok, _d) in r["results"])
         else:
             native_results = outs
     path = _write_replay(prop, v, reproduced, native_results, values)
@@ -567,7 +567,7 @@ def replay_file(prop, path):
         return 3
     r = outs["runs"][0]
     print(json.dumps(r, indent=1, default=str)[:3000])
-    if r["applicable"] and any(not ok for (_n, ok, _d) in r["results"]):
+    if any(not ok for (_n, ok, _d) in r["results"]):
         print(f"VIOLATION property={d['property']} replay={path}")
         return 1
     print("replay: no obligation fails natively on this tree")
